@@ -491,7 +491,8 @@ class Source:
                 self.pos.append((near[0] + rng.randrange(-40000, 40001), near[1] + rng.randrange(-60000, 60001)))
             else:
                 self.pos.append((rng.randrange(-899000000, 899000001), rng.randrange(-1799000000, 1799000001)))
-        self.sn = rng.randrange(0, 65535)
+        # a third of the sources start a few packets before the 16-bit sequence number wraps (SN 65535 -> 0 is in range)
+        self.sn = rng.choice([rng.randrange(0, 65535), rng.randrange(0, 65535), 65535 - rng.randrange(0, 6)])
         self.skew = skew_ms
         self.sent = []   # (kind, sn, bytes, meta)
 
@@ -612,6 +613,9 @@ class Scenario:
         if not cands:
             return self.rx_event("tsb")
         old = rng.choice(cands[-12:]) if rng.random() < 0.8 else rng.choice(cands)
+        edge = [e for e in cands[-40:] if e["sn"] in (0, 1, 65535)]
+        if edge and rng.random() < 0.35:         # replays of the packets sent around the sequence number wrap
+            old = rng.choice(edge)
         ev = dict(old)
         ev["now"] = self.now
         ev["dup_of"] = True
